@@ -41,11 +41,21 @@ def _particles(ev):
 
 
 def real_event_nd(ev, max_order=8):
+    """per-event numerators / denominators: through the private per-event method when it exists, otherwise from the
+    public API (after a call the object keeps N_events / D_events); None if neither is available"""
     from sparkx.MultiParticlePtCorrelations import MultiParticlePtCorrelations
     m = MultiParticlePtCorrelations(max_order=max_order)
-    m.N_events, m.D_events = [], []
-    m._transverse_momentum_correlations_event_num_denom(_particles(ev))
-    return [float(x) for x in m.N_events[0]], [float(x) for x in m.D_events[0]]
+    if hasattr(m, "_transverse_momentum_correlations_event_num_denom"):
+        m.N_events, m.D_events = [], []
+        m._transverse_momentum_correlations_event_num_denom(_particles(ev))
+        return [float(x) for x in m.N_events[0]], [float(x) for x in m.D_events[0]]
+    try:
+        with np.errstate(all="ignore"):
+            m.mean_pT_correlations([_particles(ev)], compute_error=False)
+        N, D = np.asarray(m.N_events), np.asarray(m.D_events)
+        return [float(x) for x in N[0]], [float(x) for x in D[0]]
+    except Exception:
+        return None
 
 
 _REUSED = {}   # max_order -> (estimator object, history of (first_method, events) it has already served)
@@ -171,7 +181,11 @@ def correspond(ctx):
     outs = common.run_driver("C13", lines)
     for (kind, k, data), out in zip(meta, outs):
         if kind == "ev":
-            N, D = real_event_nd(data)
+            nd = real_event_nd(data)
+            if nd is None:
+                ctx.count("ev/skipped-no-per-event-access")
+                continue
+            N, D = nd
             scale = max(1.0, sum(abs((1.0 if w is None else w) * pt) for w, pt in data)) ** k
             scale_w = max(1.0, sum(abs(1.0 if w is None else w) for w, pt in data)) ** k
             ok = out.startswith("ok ")
